@@ -240,13 +240,13 @@ func check(tag string, partialPtr any, origin any, omitted map[string]bool, repl
 	for i := 0; i < ot.NumField(); i++ {
 		name := ot.Field(i).Name
 		of := out.Elem().Field(i)
-		if name == replaced {
-			continue
-		}
 		if omitted[name] {
 			if !of.IsZero() {
 				fmt.Println(tag, "V OMITTED-NOT-ZERO", name)
 			}
+			continue
+		}
+		if name == replaced {
 			continue
 		}
 		if !reflect.DeepEqual(of.Interface(), src.Elem().FieldByName(name).Interface()) {
@@ -559,9 +559,13 @@ func genPartial(r *Rng) *partialCase {
 	}
 	if r.Chance(25) {
 		// replace a field of the origin's named struct type by the partial struct generated for that type
+		overlap := r.Chance(35) // the replace tag may name a field the omit tag excludes: omitted stays omitted
 		for _, f := range c.Fields {
-			if pfTypes[f.Ty].text == "Item" && !c.omitted(f.Name) {
+			if pfTypes[f.Ty].text == "Item" && (overlap || !c.omitted(f.Name)) {
 				c.Replace = f.Name + ":Item" + Pick(r, []string{"", ` json:"replaced"`, ` json:"re.placed" x:"1"`})
+				if overlap && !c.omitted(f.Name) {
+					c.Omit = append(c.Omit, f.Name)
+				}
 				break
 			}
 		}
@@ -632,7 +636,7 @@ func init() {
 			Name: "origins", Quick: 300, Thorough: 3000, New: func() Case { return &partialCase{} },
 			Gen:      func(r *Rng, i int) Case { return genPartial(r) },
 			BatchRun: partialBatch, ShrinkBudget: 25, MaxShrinks: 6,
-			Rule: "origin structs in a second package with 1–6 fields over a menu of 18 types (scalars, slices, maps, arrays, pointers, named types of the origin's package, of another module package and of time, error, any, a defined interface) and 8 tags (dots, commas, brackets, non-ASCII, %v, @x), every combination of omit tags and sometimes a replace tag; `type x origin.T` generated with the real generator (100 per Execute), compiled, and a probe reflecting over the generated struct vs the origin (names, order, types, tags) and running DeepCopyAs on a filled value and on nil; compared with the model: field list as name / printed type / tag",
+			Rule: "origin structs in a second package with 1–6 fields over a menu of 18 types (scalars, slices, maps, arrays, pointers, named types of the origin's package, of another module package and of time, error, any, a defined interface) and 8 tags (dots, commas, brackets, non-ASCII, %v, @x), every combination of omit tags and sometimes a replace tag (a third of them naming a field that is also omitted); `type x origin.T` generated with the real generator (100 per Execute), compiled, and a probe reflecting over the generated struct vs the origin (names, order, types, tags) and running DeepCopyAs on a filled value and on nil; compared with the model: field list as name / printed type / tag",
 		},
 		{
 			Name: "rejections", New: func() Case { return &partialCase{} },
